@@ -1,4 +1,5 @@
 import EoNVerif.Proofs.ODESemi
+import EoNVerif.Props.C06b
 /-!
 C07 — equivalent ODE models are semiconjugate.  For a pair (A, B) we give the map Φ from A's state
 to B's, its derivative DΦ (written out explicitly and justified by the polynomial-derivative lemmas at the end), and
